@@ -172,7 +172,7 @@ func refApply(doc string, es []protocol.TextEdit) (string, bool) {
 // ---------------------------------------------------------------- the cases
 
 func formatCase(doc string, formats map[string]formatter.NumberFormat, opts formatter.Options) map[string]any {
-	j, errs := parser.Parse(doc)
+	j, errs := hxParse(doc)
 	return formatCaseTree(doc, j, errs, formats, opts, "")
 }
 
@@ -212,7 +212,7 @@ func formatCaseEdits(doc string, j *ast.Journal, errs []parser.ParseError, forma
 		out["doc2"] = nil
 		return out
 	}
-	j2, errs2 := parser.Parse(doc2)
+	j2, errs2 := hxParse(doc2)
 	second := server.VerifFormatText(doc2, formats, opts)
 	out["doc2"] = hx(doc2)
 	out["tree2"] = journalJ(j2)
@@ -256,6 +256,7 @@ type g5 struct {
 	noFormatDirs bool // no commodity / D directives in generated journals
 	r *rand.Rand
 	c *Ctx
+	accts []string // accounts posted to so far in the journal being generated
 }
 
 func (g *g5) n(k int) int        { return g.r.IntN(k) }
@@ -479,7 +480,24 @@ func (g *g5) posting() string {
 		sb.WriteString(g.of("*", "!") + " ")
 		g.c.Count("post.status")
 	}
-	acc := g.account()
+	acc := ""
+	if len(g.accts) > 0 && g.p(25) {
+		// journals post to the same accounts again and again, as ordinary and as virtual
+		// postings: half of the time the longest name so far, so that the widest line is
+		// regularly a bracketed repetition of a name seen before (seed r5-C05)
+		acc = g.accts[g.n(len(g.accts))]
+		if g.p(50) {
+			for _, a := range g.accts {
+				if len([]rune(a)) > len([]rune(acc)) {
+					acc = a
+				}
+			}
+		}
+		g.c.Count("post.account.reused")
+	} else {
+		acc = g.account()
+		g.accts = append(g.accts, acc)
+	}
 	switch g.n(10) {
 	case 0:
 		acc = "(" + acc + ")"
@@ -717,6 +735,7 @@ func (g *g5) damage(lines []string) []string {
 // journal returns the text of a generated journal.
 func (g *g5) journal(maxEntries int) string {
 	var lines []string
+	g.accts = nil
 	k := 1 + g.n(maxEntries)
 	for i := 0; i < k; i++ {
 		if g.p(30) {
@@ -851,7 +870,7 @@ func genC05(c *Ctx) {
 		default:
 			doc = g.journal(c.N(4, 8))
 		}
-		j, errs := parser.Parse(doc)
+		j, errs := hxParse(doc)
 		nc := c.N(4, 6)
 		for k := 0; k < nc; k++ {
 			var formats map[string]formatter.NumberFormat
@@ -874,7 +893,7 @@ func genC05(c *Ctx) {
 		}
 		// a mutated tree: shapes the parser does not produce (model totality / correspondence only)
 		if g.p(25) {
-			j2, _ := parser.Parse(doc)
+			j2, _ := hxParse(doc)
 			mut := g.mutate(j2, doc)
 			if mut != "" {
 				c.Count("tree.mutated." + mut)
